@@ -200,7 +200,7 @@ void procs_gen(plan *p, uint64_t seed, const char *cfg)
         if (noq && vrng_chance(&r, 2, 3)) plan_add(p, "SUB", 3, (int64_t)c, (int64_t)(g_buf0 + 2 * nbuf + 2 * (int)vrng_below(&r, (uint64_t)noq)), (int64_t)vrng_below(&r, 2));
     }
     const int nhev = m_wait ? (int)vrng_below(&r, 4) : 0;
-    for (int e = 0; e < nhev; e++) plan_add(p, "HEV", 3, (int64_t)e, g_dt(&r, tmode) + (int64_t)(4 * vrng_below(&r, 3)), g_prio(&r, pmode));
+    for (int e = 0; e < nhev; e++) plan_add(p, "HEV", 4, (int64_t)e, g_dt(&r, tmode) + (int64_t)(4 * vrng_below(&r, 3)), g_prio(&r, pmode), vrng_chance(&r, 1, 3) ? (int64_t)(1 + vrng_below(&r, (uint64_t)np)) : (int64_t)0);
 
     /* op table */
     opw tab[64]; int nt = 0;
@@ -257,7 +257,7 @@ void procs_gen(plan *p, uint64_t seed, const char *cfg)
                 case K_WAITP: plan_add(p, "WAITP", 2, I, j); break;
                 case K_WAITT: plan_add(p, "WAITT", 3, I, j, (int64_t)vrng_below(&r, 4)); break;
                 case K_WAITE: plan_add(p, "WAITE", 2, I, (int64_t)vrng_below(&r, (uint64_t)nhev)); break;
-                case K_SCHEV: plan_add(p, "SCHEV", 4, I, (int64_t)vrng_below(&r, (uint64_t)nhev), g_dt(&r, tmode), g_prio(&r, pmode)); break;
+                case K_SCHEV: plan_add(p, "SCHEV", 5, I, (int64_t)vrng_below(&r, (uint64_t)nhev), g_dt(&r, tmode), g_prio(&r, pmode), vrng_chance(&r, 1, 3) ? (int64_t)(1 + vrng_below(&r, (uint64_t)np)) : (int64_t)0); break;
                 case K_CANEV: plan_add(p, "CANEV", 2, I, (int64_t)vrng_below(&r, (uint64_t)nhev)); break;
                 case K_ACQ: plan_add(p, "ACQ", 2, I, (int64_t)vrng_below(&r, (uint64_t)nres)); break;
                 case K_REL: plan_add(p, "REL", 2, I, (int64_t)vrng_below(&r, (uint64_t)nres)); break;
